@@ -38,6 +38,14 @@ def describe(db):
             slope = one - off
             # affine? (a Moebius row with D != 0 is not; such a row gets exact=False and callers skip it)
             affine = abs((two - one) - slope) <= 8 * EPS * (abs(two) + abs(one) + abs(off))
+            # the difference above loses digits when the offset is large (degF: 255.37 vs slope 0.56):
+            # where the closure carries its POSC coefficients and they reproduce the observed
+            # behaviour, the slope is taken from them (b/c), which is what the closure computes.
+            t = info.tobase
+            if affine and all(hasattr(t, a) for a in ("__a__", "__b__", "__c__", "__d__")) and t.__d__ == 0 and t.__c__:
+                s2 = t.__b__ / t.__c__
+                if abs(s2 - slope) <= 64 * EPS * (abs(off) + abs(one)):
+                    slope = s2
             out[info.unit] = Aff(qt, info.unit, off, slope, affine)
     return out
 
